@@ -44,6 +44,68 @@ def run(ctx):
     ctx.rule("C04.R7", "K9", "(= C03.R7) the shutdown sequence survives the SIGCHLDs it causes: no live iteration of WORKERS in master context")
     from . import c03 as _c03
     _c03.r7(MultiAlias(ctx, {"C03.R7": "C04.R7"}))
+    ctx.rule("C04.R8", "K6", "a worker is reachable by the stop signals from the moment it exists: in the forked child TERM / QUIT / INT do not keep the master's queueing handlers until init_process()")
+    boot_window(ctx, "C04.R8")
+
+
+def boot_window(ctx, rid):
+    """spawn_worker evaluated for fork() == 0, with the calls that change signal dispositions traced: before the child enters
+    worker.init_process() -- which loads the application, patches the standard library (gevent, eventlet) and only then
+    installs the worker's own handlers -- each of SIGTERM, SIGQUIT and SIGINT has been given a disposition of the child's own
+    (signal.signal), or is held back (pthread_sigmask(SIG_BLOCK) still in force) so that it is delivered once the worker's
+    handlers are in place.  Otherwise the handler that runs is Arbiter.signal, inherited through the fork: it appends the
+    signal to the child's copy of SIG_QUEUE for a main loop the child never runs -- the stop signal is lost, the worker is
+    only ended by SIGKILL at the graceful timeout."""
+    repo = ctx.repo
+    f = ctx.fn(repo.func(ARB + ".spawn_worker"))
+    g = f.cfg
+
+    def atom_of(e):
+        if isinstance(e, ast.Call) and repo.call_target(f.module, f, e) == "os.fork":
+            return "FORKPID"
+        return None
+
+    def sigarg(ex, c, env):
+        if not c.args:
+            return UNKNOWN
+        v = ex.ev(c.args[0], env)
+        return v
+
+    def maskarg(ex, c, env):
+        if len(c.args) < 2:
+            return UNKNOWN
+        how, ss = ex.ev(c.args[0], env), ex.ev(c.args[1], env)
+        if how is UNKNOWN or ss is UNKNOWN:
+            return UNKNOWN
+        return (how, tuple(ss) if isinstance(ss, (tuple, list, set, frozenset)) else (ss,))
+    traces = {"signal.signal": sigarg, "signal.pthread_sigmask": maskarg, ".init_process": lambda ex, c, env: "enter"}
+    outs = Explorer(f, atom_of=atom_of, call_trace=traces, follow_implicit_exc=False).run(g.entry, {"FORKPID": 0, "self.WORKERS": {}})
+    STOPS = ("@signal.SIGTERM", "@signal.SIGQUIT", "@signal.SIGINT")
+    seen = 0
+    for o in outs:
+        tr = list(o.env.get(Explorer.TRACE, ()))
+        idx = [i for i, (q, v) in enumerate(tr) if q == ".init_process"]
+        if not idx:
+            continue
+        seen += 1
+        before = tr[:idx[0]]
+        own, blocked = set(), set()
+        for q, v in before:
+            if q == "signal.signal" and isinstance(v, str):
+                own.add(v)
+            elif q == "signal.pthread_sigmask" and isinstance(v, tuple) and len(v) == 2:
+                if v[0] == "@signal.SIG_BLOCK":
+                    blocked |= set(v[1])
+                elif v[0] == "@signal.SIG_UNBLOCK":
+                    blocked -= set(v[1])
+                elif v[0] == "@signal.SIG_SETMASK":
+                    blocked = set(v[1])
+        lost = [s_ for s_ in STOPS if s_ not in own and s_ not in blocked]
+        ctx.check(rid, not lost, key(f, "stop-signals-inherit-master-handlers"), site(f, text="child branch of spawn_worker"),
+                  "in the forked child %s still have the master's handler (Arbiter.signal: queue for the master's main loop) when worker.init_process() starts -- dispositions changed before: %s, "
+                  "blocked: %s.  A TERM/QUIT/INT that Arbiter.stop() sends while the worker boots (gevent / eventlet: ~120 ms of monkey patching) is swallowed; the worker then serves until it is "
+                  "SIGKILLed at the graceful timeout" % ([x[8:] for x in lost], sorted(x[8:] for x in own), sorted(str(x)[8:] for x in blocked)), "TERM, QUIT, INT re-disposed or blocked before init_process()")
+    ctx.need(seen, rid + ": the child branch of spawn_worker never reaches worker.init_process()")
 
 
 def r1(ctx):
